@@ -123,6 +123,18 @@ def build_api(r, reserved_words, use_reserved=True, hostile=False):
         # some of the bound methods are server-streaming (returns (stream Reply)): same request side, JSON array reply
         streaming = out == rep.fqn and (pos == stream_pos or r.random() < 0.15)
         svc.rpc(nm, m.fqn, out, ss=streaming, http=(r.choice(VERBS), uri(info)), body=body(info), more_http=more)
+    # request / reply types from a dependency (plain protobuf classes) on either side, any two of the three mixed shapes
+    EXPR = ".google.type.Expr"
+    f.dep("google/type/expr.proto")
+    shapes = {"Eval": (EXPR, EXPR), "Lookup": (EXPR, rep.fqn), "Describe": (None, EXPR)}
+    for nm in r.sample(sorted(shapes), 2):
+        inp, outp = shapes[nm]
+        var = "title"
+        if inp is None:
+            m, info = request_message(nm)
+            inp, var = m.fqn, "name"
+        verb = r.choice(VERBS)
+        svc.rpc(nm, inp, outp, http=(verb, "/v1/{%s=items/*}:%s" % (var, nm.lower())), body=r.choice([None, "*"]))
     m, _ = request_message("Bare")
     svc.rpc("Bare", m.fqn, rep.fqn)                                   # no google.api.http at all
     if r.random() < 0.5:
@@ -134,6 +146,22 @@ def build_api(r, reserved_words, use_reserved=True, hostile=False):
         m, info = request_message("Upload")
         svc.rpc("Upload", m.fqn, rep.fqn, cs=True, http=("post", uri(info)), body="*")
     return apigen.request([f])
+
+
+def in_package(fqn):
+    """The type is declared in the API package (emitted as a proto-plus class) rather than in a dependency (plain protobuf)."""
+    return fqn.startswith("." + PKG + ".")
+
+
+def py_class(req, fqn):
+    """'module:Class' of the Python class the emitted library uses for a message type."""
+    if in_package(fqn):
+        return f"{PYPKG}:{fqn.split('.')[-1]}"
+    for fp in req.proto_file:
+        pre = "." + fp.package + "." if fp.package else "."
+        if fqn.startswith(pre) and fqn[len(pre):] in [m.name for m in fp.message_type]:
+            return fp.name[:-len(".proto")].replace("/", ".") + "_pb2:" + fqn[len(pre):]
+    raise KeyError(fqn)
 
 
 # ------------------------------------------------------------------ schema read back from the input descriptors
